@@ -37,12 +37,13 @@ PROP = {
         "recoverer_never_escapes", "recoverer_transparent",
         "ignore_errors_only_listed", "ignore_errors_cause",
         "instant_ack_before_call", "throttle_transparent", "breaker_transparent",
-        "throttle_rate", "throttle_window_count", "throttle_model_admissible",
+        "throttle_rate", "throttle_window_count", "throttle_model_admissible", "throttle_lifetime_rate", "throttle_valid_is_lax",
         "delay_transparent", "delay_recurrence", "delay_seq_failures",
         "delay_closed_form_bound_partial", "delay_capped_from_second", "delay_first_uncapped_witness",
         "delay_gap_bound", "Old.delay_fraction_truncated",
         "stack_context_restored", "simple_calls_inner_once", "compose_with_retry",
-        "compose_with_retry_attempts", "retry_own_attempts_all_fail",
+        "compose_with_retry_attempts", "retry_own_attempts_all_fail", "retry_own_attempts",
+        "compose_with_retry_around_and_inside",
     ]],
     "tie_theorems": ["Wm.GoMw." + n for n in [
         "extracted_timeout_eq_model", "extracted_instantAck_eq_model", "extracted_throttle_eq_model",
@@ -54,20 +55,20 @@ PROP = {
     "driver": "drv_c19",
     "nontrivial": nontrivial,
     "classify": classify,
-    "rule": "stack: the bare handler and each of 19 configured middlewares (Timeout 1h / Timeout 0, CorrelationID, Recoverer, "
-            "IgnoreErrors x3 lists, InstantAck, Throttle, closed CircuitBreaker, DelayOnError x5 configurations incl. 2 with "
-            "init>max, Retry MaxRetries 0..3) x 16 handler results (outputs with/without/with-empty correlation id, plain / "
-            "pkg-errors-wrapped / fmt-%w-wrapped / nested errors, panics with string, empty string, error and nil) x 36 messages "
+    "rule": "stack: the bare handler and each of 18 configured middlewares (Timeout 1h / Timeout 0, CorrelationID, Recoverer, "
+            "IgnoreErrors x4 lists, InstantAck, Throttle, closed CircuitBreaker, DelayOnError x3 configurations, Retry MaxRetries "
+            "0..3; plus 2 DelayOnError configurations with init>max on a small sample) x 16 handler results (outputs with/without/with-empty correlation id, plain / "
+            "pkg-errors-wrapped / fmt-%w-wrapped / nested errors, panics with string, empty string, error and nil) x 72 messages "
             "(context live / cancelled / with deadline; correlation id absent / empty / set; delay metadata absent / 2µs / empty / "
-            "unparseable), exhaustively; every ordered pair and (enumerated by kind, with Retry at each position) ordered triples "
+            "unparseable; handler rewrites the incoming correlation id or not), exhaustively; every ordered pair and (enumerated by kind, with Retry at each position) ordered triples "
             "with at most one Retry, multi-attempt scripts (fail k times then succeed / panic / listed-unlisted mixes) and "
             "messages drawn from the seed. Observed per case: result, and for every handler invocation Deadline() ok, ctx.Err(), "
             "Acked, delay metadata; afterwards msg.Context() identity/Deadline/Err, Acked, delay keys, remaining metadata. "
             "delay: DelayOnError called repeatedly on one message for every failure/success sequence up to length 6 (quick) / 8 "
             "(thorough) x 7 configurations (multipliers 1, 1.5, 2, 2.5, 3) x prior metadata, plus seeded random configurations "
             "(multipliers k/1, k/2, k/4; durations < 2^44 ns so that float64 arithmetic is exact), metadata read after each call. "
-            "throttle: n sequential calls through a fresh Throttle against the real clock, only the lower bound "
-            "(n-2)·period ≤ elapsed is judged. Non-trivial = a stack case with a middleware and an observable effect, a delay "
+            "throttle: n calls by 1..16 concurrent callers through a fresh Throttle against the real clock, only the lower bound "
+            "(n-2)·period ≤ elapsed (measured from before the ticker's creation) is judged. Non-trivial = a stack case with a middleware and an observable effect, a delay "
             "sequence with >= 2 failures, a throttle case with > 2 starts; distinct = distinct (request, observation) pairs.",
     "trusted_base": [
         "Lean 4.33.0 kernel; axioms per theorem listed under theorem_axioms (subset of propext, Classical.choice, Quot.sound)",
@@ -83,7 +84,10 @@ PROP = {
         "sony/gobreaker v1.0.0 in closed state with ReadyToTrip = never (Execute calls the function once, re-panics the same value)",
         "Retry is modelled minimally (attempt rule, single read of msg.Context() after the first attempt, outputs dropped when "
         "retries are exhausted); back-off waits, MaxElapsedTime and the hook are C12's subject",
-        "time.Ticker as a one-slot channel fed at multiples of the period (validRun); real timing is sampled by one inequality only",
+        "time.Ticker as a one-slot channel: throttle_rate / throttle_window_count assume punctual delivery at multiples of the "
+        "period (validRun); throttle_lifetime_rate only assumes that a tick is never delivered before its nominal time and that "
+        "ticks are consumed in order (laxRun) – that is the inequality sampled on the real clock (n starts take >= n periods "
+        "from before the ticker's creation; judged with two periods to spare)",
         "extractor harness/cmd/extract/c19.go (go/ast printer of five bodies + structural facts) and the interpreters "
         "WmModel/GoMw.lean as the semantics of those Go statements",
         "differential harness harness/cmd/c19 + Lean driver Driver/C19.lean (model printer and the independently written monitor)",
@@ -110,8 +114,8 @@ PROP = {
                    "equals the run in which Retry ignores the context), because every middleware leaves the context as it found "
                    "it (Timeout restores it even on panic). DelayOnError is proved over exact integers for every rational "
                    "multiplier >= 1; the first-delay cap is open finding D17 (guarded theorem + witness). Five closure bodies are "
-                   "re-extracted from the source on every run and proved equal to the model; 48 structural facts pin the rest. "
-                   "The harness runs the real middlewares on ~20k (quick) cases and both diffs them against the model and "
+                   "re-extracted from the source on every run and proved equal to the model; 46 structural facts pin the rest. "
+                   "The harness runs the real middlewares on ~58k (quick) / ~260k+ (thorough) cases and both diffs them against the model and "
                    "evaluates the statement clause by clause with an independently written monitor.",
     "level_text": "Theorems (kernel-checked, no sorry) over a hand-written executable model of the nine middlewares: transparency for "
                   "all handlers/messages, context restoration and Retry composition for all stacks, DelayOnError closed form for "
@@ -119,15 +123,15 @@ PROP = {
                   "ticker; the tie to the Go code is a checked correspondence (generated bodies + facts + differential harness with "
                   "a property monitor), which is sampling, not proof.",
     "level_note": "Proved for the model: timeout_*, correlation_*, recoverer_*, ignore_errors_*, instant_ack_before_call, "
-                  "throttle_transparent/rate/window_count, breaker_transparent, delay_transparent/recurrence/seq_failures/"
+                  "throttle_transparent/rate/window_count/lifetime_rate, breaker_transparent, delay_transparent/recurrence/seq_failures/"
                   "capped_from_second/gap_bound, stack_context_restored, simple_calls_inner_once, compose_with_retry(_attempts), "
-                  "retry_own_attempts_all_fail. Conditional: delay_closed_form_bound_partial (guard InitialInterval <= MaxInterval; "
+                  "retry_own_attempts(_all_fail), compose_with_retry_around_and_inside. Conditional: delay_closed_form_bound_partial (guard InitialInterval <= MaxInterval; "
                   "the unguarded statement is false, witness delay_first_uncapped_witness = open finding D17 'initial>max'). "
                   "Witnesses of repaired defects: Old.timeout_leaves_context_done (D2), Old.delay_fraction_truncated (D3). "
                   "Model-validated only: real time (Timeout's deadline firing, Throttle's rate on the wall clock – one lower-bound "
                   "inequality), float64 rounding for multipliers that are not small dyadic rationals, gobreaker outside the closed "
                   "state, Retry's back-off (C12). Tie: extracted_{timeout,instantAck,throttle,delayMw,applyDelay}_eq_model re-proved "
-                  "against the bodies extracted on every run, 48 structural facts, differential harness + monitor.",
+                  "against the bodies extracted on every run, 46 structural facts, differential harness + monitor.",
     "technique": "Lean 4 theorems over a hand-written executable model + generated deep-embedded bodies with tie theorems + "
                  "structural facts + differential correspondence check (model diff and property monitor) against the Go code",
 }
